@@ -177,7 +177,9 @@ LINKS = {
 }
 DMODES = ["rel", "abs", "relslash", "cwd", "cwddot"]
 
-def scenario(members, links, opts, dmode, family="fs", absolute_links=False, note="", hard=False):
+UNPRIV = 65534     # the uid scenarios with `uid` run cabextract as (root never sees unlink()/open() refused)
+
+def scenario(members, links, opts, dmode, family="fs", absolute_links=False, note="", hard=False, extra_pre=(), uid=None):
     """members: [(name, utf8flag, data)]; links: names from LINKS; hard: dest/hl_out is a hard link to outside/secret.txt"""
     pre = list(BASE_PRE)
     if hard: pre.append(("hard", b"dest/hl_out", b"outside/secret.txt"))
@@ -187,7 +189,8 @@ def scenario(members, links, opts, dmode, family="fs", absolute_links=False, not
             p2, rel2, ab2 = LINKS[b"lf_dang_out"][:3]
             pre.append(("link", p2, ab2 if absolute_links else rel2))
         pre.append(("link", p, ab if absolute_links else rel))
-    return dict(members=members, pre=pre, opts=opts, dmode=dmode, family=family, links=[l.decode() for l in links], note=note)
+    pre += list(extra_pre)
+    return dict(members=members, pre=pre, opts=opts, dmode=dmode, family=family, links=[l.decode() for l in links], note=note, uid=uid)
 
 def scn_lines(s):
     lines = ["# fs scenario of checks/c16.py (replayed by `bin/check C16 --replay FILE`); @ROOT@ = the throw-away test root"]
@@ -197,6 +200,7 @@ def scn_lines(s):
         lines.append("fs pre " + e[0] + " " + " ".join(C.hexs(x) for x in e[1:]))
     lines.append("fs opts " + " ".join(s["opts"]))
     lines.append("fs dmode " + s["dmode"])
+    if s.get("uid") is not None: lines.append(f"fs uid {s['uid']}")
     return lines
 
 def scn_parse(lines):
@@ -208,6 +212,7 @@ def scn_parse(lines):
         elif t[:2] == ["fs", "pre"]: s["pre"].append(tuple([t[2]] + [hx(x) for x in t[3:]]))
         elif t[:2] == ["fs", "opts"]: s["opts"] = [x for x in t[2:] if x]
         elif t[:2] == ["fs", "dmode"]: s["dmode"] = t[2]
+        elif t[:2] == ["fs", "uid"]: s["uid"] = int(t[2])
     s["links"] = [e[1].decode(errors="replace") for e in s["pre"] if e[0] == "link"]
     return s
 
@@ -291,6 +296,17 @@ def fs_scenarios(ctx):
     yield scenario(one(b"ab"), [], ["-e", "UTF-16LE"], "rel", "fs.encoding", note="terminating NUL is half a code unit")
     yield scenario(one(b"..\\outside\\lat\xe9.txt") + one(b"\x81\\..\\x\x81"), [], ["-e", "ISO-8859-1"], "rel", "fs.encoding")
     yield scenario(one(b"\x83\x5c..\x83\x5c..\\outside\\sjis.txt") + one(b"\x83"), [], ["-e", "SHIFT_JIS"], "cwd", "fs.encoding", note="0x5C as trail byte")
+    # the extracting user may not modify the directory that holds a link (mode 0555; a sticky directory with someone else's
+    # link gives the same refusal): unlink() of the link fails, and nothing may then be written through it
+    for dm in ("rel", "cwd"):
+        for opts in ([], ["-L"], ["-n"]):
+            for lk, tgt in ((b"dest/shared/report.txt", b"../../outside/secret.txt"), (b"dest/shared/new.txt", b"../../outside/created.txt")):
+                base = lk.rsplit(b"/", 1)[1]
+                yield scenario(one(b"shared\\" + base), [], opts, dm, "fs.unlink-refused", uid=UNPRIV,
+                               extra_pre=[("dir", b"dest/shared"), ("link", lk, tgt), ("chmod", b"dest/shared", b"555")],
+                               note="link in a directory the extracting user cannot modify")
+    yield scenario(one(b"shared\\report.txt"), [], [], "rel", "fs.unlink-refused", uid=UNPRIV,
+                   extra_pre=[("dir", b"dest/shared"), ("link", b"dest/shared/report.txt", b"../../outside/secret.txt")], note="control: same layout, directory writable")
     yield scenario(one(b"hl_out"), [], [], "rel", "fs.corpus", hard=True, note="hard link to an outside file as final component: replaced, not written through")
     yield scenario(one(b"hl_out"), [], ["-n"], "cwd", "fs.corpus", hard=True)
     # ---- random
@@ -422,6 +438,17 @@ def run_fs(exe, idx, s, model_line):
                 open(p, "wb").write(e[2]); os.utime(p, (1000000000, 1000000000))
             elif e[0] == "link": os.symlink(R(e[2]), p)
             elif e[0] == "hard": os.link(root + b"/" + e[2], p)
+        uid = s.get("uid")
+        if uid is not None:
+            if os.geteuid() != 0:
+                st["skipped_not_root"] = 1
+                return fs, st
+            # the whole test root belongs to the extracting user; then the modes the scenario asks for
+            for dp, dn, fn in os.walk(root):
+                os.lchown(dp, uid, uid)
+                for f in dn + fn: os.lchown(os.path.join(dp, f), uid, uid)
+        for e in s["pre"]:
+            if e[0] == "chmod": os.chmod(root + b"/" + e[1], int(e[2].decode(), 8))
         members = [(R(nm)[:255], u, d) for (nm, u, d) in s["members"]]
         whole = b"".join(d for (_, _, d) in members)
         files, off = [], 0
@@ -429,6 +456,7 @@ def run_fs(exe, idx, s, model_line):
             files.append(dict(name=nm, length=len(d), offset=off, folder=0, attribs=0x20 | (0x80 if u else 0))); off += len(d)
         cab, _ = minicab.build([(0, [(whole, len(whole))])], files)
         open(root + b"/x.cab", "wb").write(cab)
+        runas = dict(user=uid, group=uid, extra_groups=[]) if uid is not None else {}
         dest = root + b"/dest"
         dm = s["dmode"]
         if dm == "rel": cwd, dargs, cabp, dirarg = root, [b"-d", b"dest"], b"x.cab", b"dest"
@@ -444,7 +472,7 @@ def run_fs(exe, idx, s, model_line):
         before_out = snapshot(jail, skip=dest)
         before_in = snapshot(dest)
         # --- listing
-        rl = subprocess.run([exe.encode(), b"-l"] + opts + dargs + [cabp], cwd=cwd, capture_output=True, env=env, timeout=60)
+        rl = subprocess.run([exe.encode(), b"-l"] + opts + dargs + [cabp], cwd=cwd, capture_output=True, env=env, timeout=60, **runas)
         if b"AddressSanitizer" in rl.stderr or b"runtime error:" in rl.stderr:
             fs.append(san_finding("`cabextract -l " + " ".join(s["opts"]) + "`", rl.stderr, members))
         listed = None
@@ -498,7 +526,7 @@ def run_fs(exe, idx, s, model_line):
             inter = any(os.path.islink(dest + b"/" + b"/".join(comps[:k])) for k in range(1, len(comps)))
             resolved.append(dict(final_link=os.path.islink(full), inter_link=inter, real=os.path.realpath(full), existed=os.path.exists(full)))
         # --- extraction
-        rx = subprocess.run([exe.encode()] + opts + dargs + [cabp], cwd=cwd, capture_output=True, env=env, timeout=60)
+        rx = subprocess.run([exe.encode()] + opts + dargs + [cabp], cwd=cwd, capture_output=True, env=env, timeout=60, **runas)
         if (b"AddressSanitizer" in rx.stderr or b"runtime error:" in rx.stderr) and not any(getattr(f, "shape", "").startswith("enc-") for f in fs):
             fs.append(san_finding("`cabextract " + " ".join(s["opts"]) + "` (extraction)", rx.stderr, members))
         if rx.returncode != 0: st["nonzero"] = 1
